@@ -704,17 +704,36 @@ func ParseHost(input string, isOpaque bool) (string, Result) {
 // to be a fixed point). Only the C03 exemption test sets it, to judge the non-host part of a state.
 var AssumeACEFixedPoint bool
 
+// ToASCIIHook, when set, supplies domain-to-ASCII for hosts the model does not cover itself
+// (non-ASCII code points or ACE labels): "the IDNA mapping is taken as given". It returns the ASCII
+// form, whether the conversion succeeded, and whether the hook could judge at all.
+var ToASCIIHook func(domain string) (ascii string, ok bool, supported bool)
+
 func domainToASCII(d string) (string, Result) {
+	needsIDNA := false
 	for _, r := range d {
 		if r >= 0x80 {
-			return "", Unsupported
+			needsIDNA = true
 		}
 	}
 	l := strings.ToLower(d)
 	for _, label := range strings.Split(l, ".") {
 		if strings.HasPrefix(label, "xn--") && !AssumeACEFixedPoint {
+			needsIDNA = true
+		}
+	}
+	if needsIDNA {
+		if ToASCIIHook == nil {
 			return "", Unsupported
 		}
+		a, ok, sup := ToASCIIHook(d)
+		if !sup {
+			return "", Unsupported
+		}
+		if !ok || a == "" {
+			return "", Failure
+		}
+		return a, OK
 	}
 	if l == "" {
 		return "", Failure
